@@ -17,10 +17,13 @@ from wlib import cq, clist, cnat, cz, cbool, copt, cpair
 import gen
 from gen import F, enc_label, dec_label, LabelTable, coq_obs, fs
 
-INT_LABELS = [0, 1, 2, 5, -3, 10 ** 12, 33]
+BIG = 2 ** 53 + 1     # smallest positive integer a float64 cannot hold
+# |label| < 2^63: Variables raises OverflowError for integer labels outside the ssize_t range (e.g. Variables([2**64+1]))
+INT_LABELS = [0, 1, 2, 5, -3, 10 ** 12, 33, BIG, -BIG, 2 ** 60 + 3, -(10 ** 18 + 1), 2 ** 63 - 1, 3 ** 39]
 STR_LABELS = ['a', 'b', 'x0', '', 'with space', 'a"b', 'q\\n', 'é']
 FLT_LABELS = [2.5, -0.5, 0.001, 7.0]
-TUP_LABELS = [('t', 1), ('t', (1, 2)), ('a', ('b', ('c', 3))), (), (4,), ((),), ('x', 2.5), (('u', 'v'), ('w',))]
+TUP_LABELS = [('t', 1), ('t', (1, 2)), ('a', ('b', ('c', 3))), (), (4,), ((),), ('x', 2.5), (('u', 'v'), ('w',)),
+              ('t', BIG), (BIG + 2, ('y', -(2 ** 60 + 1))), (-7, 0)]
 BQM_ROUTES = ['ser', 'ser_json', 'ser_json_decoder', 'ser_bytes', 'pickle2', 'pickle3', 'pickle4', 'pickle5',
               'deepcopy', 'copy', 'method_copy']
 SS_ROUTES = ['none', 'encoder', 'pickle2', 'pickle3', 'pickle4', 'pickle5', 'deepcopy', 'copy', 'method_copy']
@@ -46,7 +49,7 @@ def pick_labels(rng, n, style=None):
     elif style == 'tuple':
         pool = list(TUP_LABELS) + [('k', i) for i in range(max(0, n))]
     else:
-        pool = INT_LABELS[:4] + STR_LABELS + FLT_LABELS[:3] + TUP_LABELS + [('m', i) for i in range(max(0, n))]
+        pool = INT_LABELS[:4] + INT_LABELS[7:10] + STR_LABELS + FLT_LABELS[:3] + TUP_LABELS + [('m', i) for i in range(max(0, n))]
     rng.shuffle(pool)
     return pool[:n]
 
@@ -104,7 +107,7 @@ def gen_case(rng, tier):
         n = rng.randint(0, 7)
         labels = pick_labels(rng, n)
         if rng.random() < 0.3 and n:
-            labels[0] = {"np": rng.choice(['int64', 'int8', 'float32', 'float64']), "v": rng.choice([3, 11, 2.5])}
+            labels[0] = {"np": rng.choice(['int64', 'int8', 'float32', 'float64']), "v": rng.choice([3, 11, 2.5, 2 ** 53 + 1, -(2 ** 62 + 1)])}
             return {"kind": "labels", "labels": [labels[0]] + [enc_label(l) for l in labels[1:]], "json": rng.random() < 0.6}
         return {"kind": "labels", "labels": [enc_label(l) for l in labels], "json": rng.random() < 0.6}
     if r < 0.60:
@@ -204,6 +207,47 @@ class NormTable(LabelTable):
         return super().idx(norm_label(l))
 
 
+def label_types_ok(o, e, idx=None):
+    """e (an entry of an emitted `variable_labels` list) has the value AND the Python type that
+    serialize_variable gives the label o: ints stay ints (nested ones too), floats stay floats.
+    A top-level float label equal to its own position is handed back by Variables as that int."""
+    if isinstance(o, tuple):
+        return isinstance(e, (tuple, list)) and len(o) == len(e) and all(label_types_ok(x, y) for x, y in zip(o, e))
+    if isinstance(o, (bool, np.bool_)):
+        return True
+    if isinstance(o, (int, np.integer)):
+        return type(e) is int and e == o
+    if isinstance(o, (float, np.floating)):
+        return (type(e) is float and e == o) or (idx is not None and type(e) is int and e == idx and e == o)
+    if isinstance(o, str):
+        return type(e) is str and e == o
+    return True
+
+
+def as_label(e):
+    return tuple(as_label(x) for x in e) if isinstance(e, (tuple, list)) else e
+
+
+def emitted_labels_fail(orig, emitted, positional):
+    """None, or why the emitted label list is not the serialisation of the labels `orig`"""
+    orig = list(orig)
+    if len(emitted) != len(orig):
+        return f"{len(orig)} labels serialised as {len(emitted)} entries"
+    for i, e in enumerate(emitted):
+        if positional:
+            o = orig[i]
+            if not same_label(o, as_label(e)):
+                return f"label {o!r} serialised as {e!r}"
+        else:
+            c = [o for o in orig if same_label(o, as_label(e))]
+            if not c:
+                return f"serialised label {e!r} is none of the variables {orig!r}"
+            o = c[0]
+        if not label_types_ok(o, e, i):
+            return f"label {o!r} ({type(o).__name__}) serialised as {e!r}: integer labels must be emitted as ints, floats as floats"
+    return None
+
+
 def coq_str(s):
     # Coq string literals: bytes; restrict to what round-trips through the literal syntax
     return '"' + s.replace('"', '""') + '"%string'
@@ -217,9 +261,6 @@ def coq_lbl(l, j=False):
         return f"({L}Int {cz(int(l))})"
     if isinstance(l, (float, np.floating)):
         fr = Fraction(float(l))
-        if fr.denominator == 1:
-            # label normalisation (as in C13): 7.0 and 7 are the same label
-            return f"({L}Int {cz(fr.numerator)})"
         return f"({L}Flt {cz(fr.numerator)} {fr.denominator}%positive)"
     if isinstance(l, str):
         return f"({L}Str {coq_str(l)})"
@@ -389,6 +430,9 @@ def run_bqm(c):
         ok = len(order) == len(bqm.variables) and all(any(same_label(x, y) for y in bqm.variables) for x in order)
         if not ok:
             return {"py_fail": f"serialised labels {order!r} are not the variables {list(bqm.variables)!r}", "features": feats}
+        bad = emitted_labels_fail(bqm.variables, doc["variable_labels"], False)
+        if bad:
+            return {"py_fail": "BQM.to_serializable: " + bad, "features": feats}
     else:
         order = list(bqm.variables)
     T = NormTable(order)
@@ -453,6 +497,7 @@ def run_labels(c):
     try:
         v = Variables(labels)
         ser = v.to_serializable()
+        ser_raw = ser
         if c["json"]:
             ser = json.loads(json.dumps(ser))
         back = list(iter_deserialize_variables(ser))
@@ -462,6 +507,9 @@ def run_labels(c):
     py_fail = None
     if list(v2) != list(v) or len(v2) != len(v):   # Variables drops duplicate labels (2.5 and np.float32(2.5) are one label)
         py_fail = f"labels {labels!r} -> {list(v2)!r}"
+    py_fail = py_fail or emitted_labels_fail(list(v), ser_raw, True)
+    if py_fail is None and not all(same_label(x, y) for x, y in zip(v, v2)):
+        py_fail = f"labels {list(v)!r} -> {list(v2)!r}"
     coq = f"(KLabels {clist([coq_lbl(l) for l in v])} {clist([coq_lbl(l, True) for l in ser])} {clist([coq_lbl(l) for l in back])})"
     return {"coq": coq, "py_fail": py_fail, "features": feats, "nontrivial": len(labels) > 0}
 
@@ -541,9 +589,18 @@ def run_ss(c):
         emitted = f"(Raw {coq_rows(emitted_arr.reshape(len(ss), n))})"
     if (doc["num_variables"], doc["num_rows"], doc["variable_type"], doc["sample_type"]) != (n, len(ss), ss.vartype.name, sample.dtype.name):
         py_fail = py_fail or "document header does not describe the sample set"
+    bad = emitted_labels_fail(ss.variables, doc["variable_labels"], True)
+    if bad:
+        py_fail = py_fail or ("SampleSet.to_serializable: " + bad)
     coq = (f"(KSS {vtn} {cbool(intd)} {cbool(c['pack'])} {cnat(n)} {coq_rows(sample)} {emitted} "
            f"{new.vartype.name if new.vartype.name in ('SPIN', 'BINARY', 'INTEGER', 'REAL') else 'INTEGER'} {coq_rows(new.record.sample)})")
     extra = []
+    try:
+        # the labels through the same document, against the Coq label model (JInt is not JFlt)
+        extra.append(f"(KLabels {clist([coq_lbl(l) for l in ss.variables])} "
+                     f"{clist([coq_lbl(l, True) for l in doc2['variable_labels']])} {clist([coq_lbl(l) for l in new.variables])})")
+    except AssertionError as e:
+        py_fail = py_fail or f"labels cannot be rendered: {e}"
     route = c["route"]
     if route != 'none':
         try:
